@@ -73,3 +73,60 @@ func VerifC18Route() {
 	}
 	verifCover("end")
 }
+
+// VerifC18HashRoute: the same for a consistent-hashing route, whose published configuration also carries the
+// hash ring: the ring a dispatcher already holds is never changed by Add / DelDestination / Update /
+// UpdateDestination, and looking any key up in it still names one of the held destinations.
+func VerifC18HashRoute() {
+	m, _ := matcher.New("", "", "", "", "", "")
+	mk := func(a string) *dest.Destination {
+		d, err := dest.New("chroute", m, a, "/tmp/verif-spool", false, false, 1e9, 1e9, 10, 100, 10, 1000, 10, 1e9, 1e6, 1e6)
+		if err != nil {
+			panic(err)
+		}
+		return d
+	}
+	ds := []*dest.Destination{mk("127.0.0.1:2103:a"), mk("127.0.0.2:2103")}
+	ri, err := NewConsistentHashing("chroute", m, append([]*dest.Destination{}, ds...))
+	verifAssert(err == nil, "route-created")
+	r := ri.(*ConsistentHashing)
+	verifSettle()
+	held := r.config.Load().(consistentHashingConfig)
+	heldRing := append(hashRing{}, held.Hasher.Ring...)
+	heldDests := append([]*dest.Destination{}, held.Dests()...)
+	nops := 1 + verifChoice("nops", 2)
+	for i := 0; i < nops; i++ {
+		switch verifChoice("op", 4) {
+		case 0:
+			r.Add(mk("127.0.0.3:2104:b"))
+		case 1:
+			r.DelDestination(verifChoice("idx", 2))
+		case 2:
+			r.Update(map[string]string{"prefix": "zz"})
+		case 3:
+			r.UpdateDestination(verifChoice("idx", 2), map[string]string{"prefix": "yy"})
+		}
+		verifSettle()
+	}
+	verifAssert(len(held.Dests()) == len(heldDests), "held-config-length-unchanged")
+	for i := range heldDests {
+		verifAssert(i < len(held.Dests()) && held.Dests()[i] == heldDests[i], "held-config-dests-unchanged")
+	}
+	same := len(held.Hasher.Ring) == len(heldRing)
+	if same {
+		for i := range heldRing {
+			if held.Hasher.Ring[i] != heldRing[i] {
+				same = false
+			}
+		}
+	}
+	verifAssert(same, "held-hash-ring-unchanged")
+	inRange := true
+	for _, e := range held.Hasher.Ring {
+		if e.DestinationIndex < 0 || e.DestinationIndex >= len(held.Dests()) {
+			inRange = false
+		}
+	}
+	verifAssert(inRange, "held-ring-names-only-held-destinations")
+	verifCover("end")
+}
